@@ -84,9 +84,14 @@ def run_dm1(case):
     sca = W.ca(S, s_addr, identity_number=1)
     nrx = rng.choice([1, 2])
     got = {}
+    noaddr_rx = random.Random(case['seed'] ^ 0xA0).random() < 0.3
     for i in range(nrx):
         R = W.stack('R%d' % i)
-        rca = W.ca(R, 0x80 + i, identity_number=10 + i)
+        # DM1 is a broadcast: a subscriber gets it whether or not its CA holds an address (in some cases the first receiver's CA is never started)
+        if i == 0 and noaddr_rx:
+            rca = W.ca(R, 0x80 + i, identity_number=10 + i, bypass=False)
+        else:
+            rca = W.ca(R, 0x80 + i, identity_number=10 + i)
         d = j.Dm1(rca)
         got[i] = []
         d.subscribe(lambda sa, lamps, dtcs, ts, i=i: got[i].append((sim.now, sa, dict(lamps), [dict(x) for x in dtcs])))
@@ -160,6 +165,20 @@ def run_dm1(case):
     dm1 = j.Dm1(sca)
     t0 = 0.02
     sim.at(t0, dm1.start_send, cb, cycle)
+    # the sending application also broadcasts another long parameter group now and then, possibly while a DM1 is on its way (J1939-21 allows
+    # one broadcast per source at a time: the stack may refuse it, but a DM1 it has begun must arrive as supplied)
+    other_tx = []
+    if random.Random(case['seed'] ^ 0xB0).random() < 0.3 and not overrun:
+        orng = random.Random(case['seed'] ^ 0xB1)
+
+        def other():
+            if 'cycles' in stopped:
+                return
+            pay = [0xE3] + [orng.randrange(256) for _ in range(19 if not fd else 79)]
+            rec = W.call('other_broadcast', sca.send_pgn, 0, 0xFE, 0xE3, 6, list(pay))
+            other_tx.append((sim.now, rec['ret'], bytes(pay)))
+            sim.after(cycle * orng.choice([0.37, 0.61, 1.13]), other)
+        sim.at(t0 + 0.011, other)
     t_stop = t0 + cycle * ncycles + cycle * 0.5
 
     def stop():
@@ -194,7 +213,10 @@ def run_dm1(case):
         t_end = t_stop2 + 3 * cycle2 + dur + 0.05
         restart.update(cycle=cycle2, n=n2c)
     W.run(t_end)
-    obs = dict(stopped_inside_callback=0, dm1_cycles_compared=0, dtcs_compared=0, stop_observed=0, overrun_cases=0, dm22_frames=0, dtc_codec_values=0, lamp_combinations_max=len(set(tuple(x) for x in case['lamps'])))
+    # a DM1 cycle that comes due while another broadcast of the same source is running may be skipped on J1939-21 (as in the overrun cases):
+    # what arrives must equal exactly one supplied cycle, in order
+    relaxed = overrun or (bool(other_tx) and not fd)
+    obs = dict(other_broadcasts=0, receiver_without_address=0, stopped_inside_callback=0, dm1_cycles_compared=0, dtcs_compared=0, stop_observed=0, overrun_cases=0, dm22_frames=0, dtc_codec_values=0, lamp_combinations_max=len(set(tuple(x) for x in case['lamps'])))
     M.m_live(viol, W, layer)
     if stopped.get('exc'):
         viol.add('stop_raised', 'stop_send raised %s' % stopped['exc'], **tag)
@@ -216,6 +238,8 @@ def run_dm1(case):
     else:
         obs['stop_observed'] += 1
     obs['stopped_inside_callback'] = 1 if stopped.get('inside') else 0
+    obs['other_broadcasts'] = len(other_tx)
+    obs['receiver_without_address'] = 1 if noaddr_rx else 0
     if n_at_stop not in (ncycles, ncycles + 1):          # the first DM1 may go out at start_send or one cycle later
         viol.add('dm1_cycle_count', '%d DM1 cycles ran in %d cycle times before stop_send' % (n_at_stop, ncycles), **tag)
     # 2. subscribers got every cycle exactly, in order
@@ -229,8 +253,8 @@ def run_dm1(case):
         if s2_addr is not None and len(other) < len(sent2) - 1:
             viol.add('dm1_other_sender', 'subscriber %d got %d of %d DM1 of the second sender' % (i, len(other), len(sent2)), how='missing', **tag)
         rec = [r for r in got[i] if r[1] == s_addr]
-        if overrun:
-            obs['overrun_cases'] = 1
+        if relaxed:
+            obs['overrun_cases'] = 1 if overrun else 0
             idx = 0
             for r in rec:
                 k = next((k for k in range(idx, len(sent)) if (r[2], r[3]) == (sent[k][1], sent[k][2])), None)
@@ -242,7 +266,7 @@ def run_dm1(case):
                              % (cycle, dur, i, len(r[3]), tagv, idx), how='mixed', **tag)
                     break
                 idx = k + 1
-            if sent and not rec:
+            if sent and not rec and overrun:          # (with other broadcasts every one of a few cycles may legitimately have been refused)
                 viol.add('dm1_delivery_count', 'overrun: subscriber %d got no DM1 at all for %d cycles' % (i, len(sent)), how='missing', **tag)
             continue
         if stopped.get('inside') and not restart and len(rec) == len(sent) - 1:
@@ -279,7 +303,7 @@ def run_dm1(case):
         if s.pgn == C.PGN_DM1:
             wire.append((s.t_open, s.payload()))
     wire.sort(key=lambda x: x[0])
-    if overrun:
+    if relaxed:
         idx = 0
         encs = [C.dm1_payload(s[1], s[2]) for s in sent]
         for (t, payload) in wire:
